@@ -50,9 +50,9 @@ func AppliesTable(p *core.Prog, r *core.Report) {
 					continue
 				}
 				for suf, role := range roleOf {
-					if strings.HasSuffix(pth, suf) && !seen[T.Obj().Name()+role] {
-						seen[T.Obj().Name()+role] = true
-						groups = append(groups, grp{T.Obj().Name(), role})
+					if strings.HasSuffix(pth, suf) && !seen[core.KnownTypeName(T)+role] {
+						seen[core.KnownTypeName(T)+role] = true
+						groups = append(groups, grp{core.KnownTypeName(T), role})
 					}
 				}
 			}
